@@ -24,6 +24,11 @@ AllLeaves == CASE G = "G12" -> (IF NV = 1 THEN LeavesG1 ELSE LeavesG2(NV))
                [] G = "G3v" -> << PredC("p_lt", <<At(V(2), "m"), At(V(3), "n")>>, "fn"), InC(V(2), At(V(1), "refs"), "contains"),
                                   CmpC("eq", At(V(1), "n"), LitI(0)), CmpC("ge", At(V(3), "m"), At(V(2), "m")),
                                   CmpC("eq", At(V(1), "n"), At(V(3), "m")), CmpC("lt", At(V(2), "n"), At(V(1), "m")) >>
+               \* two variables; bare attribute / method-call conditions on variable 2 (operands that do not echo the incoming
+               \* bindings in the rows they yield), conditions on variable 1 alone, one join - each leaf at most once in a tree
+               [] G = "G2t" -> << Truth(At(V(2), "n")), CmpC("ge", At(V(1), "n"), LitI(1)), CmpC("lt", At(V(1), "m"), LitI(2)),
+                                  CmpC("eq", At(V(1), "n"), At(V(2), "m")), Truth(MCall(V(2), "is_small", NoArg)),
+                                  CmpC("ge", At(V(2), "m"), LitI(1)) >>
                \* four leaves over the variable sets {1,2}, {1,3}, {1}, {1,3}, each used at most once in a tree: a conjunction of
                \* two disjunctions leaves results in the conjunction's cache under a partial binding (variable 3 unbound) next
                \* to results under a full one, and later lookups match both
@@ -59,7 +64,7 @@ Selections ==
   CASE G = "G1x" -> << Sel("set_of", [j \in 1..NV |-> V(j)]), Sel("set_of", [j \in 1..NV |-> V(NV + 1 - j)]) >>
     [] G = "G3s" -> << Sel("set_of", <<V(1), V(2), V(3)>>), Sel("set_of", <<V(1), V(2)>>), Sel("set_of", <<V(2), V(3)>>),
                        Sel("entity", <<V(2)>>) >>
-    [] G = "G2n" -> << Sel("entity", <<V(1)>>), Sel("set_of", <<V(1), V(2)>>), Sel("entity", <<V(2)>>) >>
+    [] G \in {"G2n", "G2t"} -> << Sel("entity", <<V(1)>>), Sel("set_of", <<V(1), V(2)>>), Sel("entity", <<V(2)>>) >>
     [] G = "G1k" -> << Sel("entity", <<V(1)>>) >>
     \* the selected value may be any value, the falsy members of its sort and None included
     [] G = "G1s" -> << Sel("entity", <<At(V(1), "o")>>), Sel("entity", <<At(V(1), "n")>>), Sel("set_of", <<At(V(1), "o")>>),
@@ -101,7 +106,7 @@ UsesLeaf(c, lf) == CASE c.k \in {"and", "or"} -> UsesLeaf(c.l, lf) \/ UsesLeaf(c
                      [] c.k \in {"not", "forall"} -> UsesLeaf(c.c, lf)
                      [] OTHER -> c = lf
 PushLeaf(j) == /\ done = <<>> /\ Total < MaxLeaves
-               /\ (G \in {"G3w", "G3ws"} => \A i \in 1..Len(stack) : ~UsesLeaf(stack[i], Leaves[j]))
+               /\ (G \in {"G3w", "G3ws", "G2t"} => \A i \in 1..Len(stack) : ~UsesLeaf(stack[i], Leaves[j]))
                /\ stack' = Append(stack, Leaves[j]) /\ UNCHANGED done
 ApplyNot(form) == /\ done = <<>> /\ stack # <<>> /\ NotDepth(Top) < MaxNot /\ Top.k # "forall" /\ ~HasSub(Top)
                   /\ stack' = Append(Pop(1), NotC(Top, form)) /\ UNCHANGED done
